@@ -184,6 +184,16 @@ fn status_of(answer: &str) -> &str { answer.split(' ').next().unwrap_or("") }
 fn items(answer: &str) -> Vec<String> {
     match answer.split_once(" out=") { Some((_, o)) if !o.is_empty() => o.split(',').map(|s| s.to_owned()).collect(), _ => Vec::new() }
 }
+/// printed lines cut at line feeds inside them (what the captured byte stream of follow mode shows of such a line)
+fn cut_at_nl(items: &[String]) -> Vec<String> {
+    let mut out = Vec::new();
+    for it in items {
+        if it == "C" || !it.starts_with('x') { out.push(it.clone()); continue; }
+        let bytes: Vec<u8> = (1..it.len()).step_by(2).filter_map(|i| u8::from_str_radix(&it[i..(i + 2).min(it.len())], 16).ok()).collect();
+        for part in bytes.split(|b| *b == b'\n') { out.push(hex(part)); }
+    }
+    out
+}
 /// the screens of an answer: element 0 what precedes the first clear
 fn screens(items: &[String]) -> Vec<Vec<String>> {
     let mut out = vec![Vec::new()];
@@ -256,7 +266,7 @@ pub fn stream(run: &mut Run, rng: &mut Rng, n: usize, focus: &str) {
                 let b = batch_over(&c, &lines);
                 if b.starts_with("ok ") {
                     run.oracle_checks += 1;
-                    let want = items(&e2e::without_total(&b));
+                    let want = cut_at_nl(&items(&e2e::without_total(&b)));
                     let sc = screens(&items(&u));
                     if matches!(p.statement, Statement::Aggregate(_)) {
                         let last = sc.last().unwrap().clone();
